@@ -20,14 +20,14 @@ func init() {
 	fw.Register(&fw.Property{
 		ID:    "C09",
 		Level: "exploration",
-		Rule: "cases = two peers, each ONE instance with 2-4 databases (mixed types; write lists wildcard / shared / disjoint) on the default shared event bus; 20-60 steps of {local write, remote write + delivery (replication), Load(-1), manual Sync} on a PRNG-chosen ACTIVE database while the others idle, roles rotating every few steps. Monitors: wire log (every publish and direct send), a harness subscription to every store event on both shared buses, and (progress, max, entries, view) of every idle database before/after each phase. " +
+		Rule: "cases = two peers, each ONE instance with 2-4 databases (mixed types; write lists wildcard / shared / disjoint) on the default shared event bus; 20-60 steps of {local write, remote write + delivery (replication), Load(-1), manual Sync} on a PRNG-chosen ACTIVE database while the others idle, roles rotating every few steps; then rounds in which two databases of one instance are written concurrently (with PRNG latency in the simulated topic.Peers call); finally both instances are restarted and every database is reopened and loaded (in half of the cases with ONE CreateDBOptions value reused for every Open). Monitors: wire log (every publish and direct send), a harness subscription to every store event on both shared buses, and (progress, max, entries, view) of every idle database before/after each phase. " +
 			"distinct = hash(database set, step script); non-trivial = >= 2 databases, >= 1 database idle while another replicated remote entries, and >= 10 wire messages checked",
 		Assumptions: []string{"simulated network records every message the stores publish or send", "the harness's own bus subscription has a large buffer and is drained continuously"},
 		Cases:       c09Cases,
 		Run:         c09Run,
 		MinDistinct: map[string]int{"quick": 15, "thorough": 120},
 		Batch:       6,
-		Explain:     "oracle: (1) every message on topic T and every direct payload naming address T carries only heads whose log id is T, and a publish on topic T names address T; (2) while only database X is active every other database of the same instance keeps its entries, view and (progress, max), and no store event with its address is emitted; (3) every EventWrite / EventReplicated / EventReplicateProgress carries entries whose log id equals the event's address.",
+		Explain:     "oracle: (1) every message on topic T and every direct payload naming address T carries only heads whose log id is T, and a publish on topic T names address T; (2) while only database X is active every other database of the same instance keeps its entries, view and (progress, max), and no store event with its address is emitted; (3) every EventWrite / EventReplicated / EventReplicateProgress carries entries whose log id equals the event's address; (4) after the restart every database lists exactly its own entries again.",
 	})
 }
 
@@ -39,7 +39,7 @@ func c09Cases(tier string, seed int64) []fw.Case {
 	rng := rand.New(rand.NewSource(seed*817504243 + 9))
 	var out []fw.Case
 	for i := 0; i < n; i++ {
-		out = append(out, fw.Case{Idx: i, Seed: rng.Int63(), P: map[string]interface{}{"ndbs": 2 + rng.Intn(3), "steps": 20 + rng.Intn(41), "lists": []string{"wild", "shared", "disjoint"}[i%3]}})
+		out = append(out, fw.Case{Idx: i, Seed: rng.Int63(), P: map[string]interface{}{"ndbs": 2 + rng.Intn(3), "steps": 20 + rng.Intn(41), "lists": []string{"wild", "shared", "disjoint"}[i%3], "shared": i%2 == 1}})
 	}
 	return out
 }
@@ -66,6 +66,18 @@ func c09Run(c fw.Case) fw.Verdict {
 		return fw.Verdict{Status: fw.Inconclusive, What: err.Error()}
 	}
 	peers := []*sim.Peer{A, B}
+	shared := c.Bool("shared")
+	sharedOpen := map[int]*iface.CreateDBOptions{} // per instance: one options value reused for every Open, as an application might
+	var prng sync.Mutex
+	drng := rand.New(rand.NewSource(c.Seed + 77))
+	e.W.PeersDelay = func() time.Duration {
+		prng.Lock()
+		defer prng.Unlock()
+		if drng.Intn(3) == 0 {
+			return time.Duration(drng.Intn(400)) * time.Microsecond
+		}
+		return 0
+	}
 	var dbs []*DB
 	for i := 0; i < nd; i++ {
 		var wl []string
@@ -81,7 +93,25 @@ func c09Run(c fw.Case) fw.Verdict {
 		if lists == "disjoint" && i%2 == 1 {
 			creator, other = B, A
 		}
-		db, err := e.CreateDB(fmt.Sprintf("c09-%d", i), storeTypes[(i+c.Idx)%3], creator, []*sim.Peer{other}, wl)
+		var db *DB
+		if shared {
+			db, err = e.CreateDB(fmt.Sprintf("c09-%d", i), storeTypes[(i+c.Idx)%3], creator, nil, wl)
+			if err == nil {
+				octx, ocancel := context.WithTimeout(bg, 20*time.Second)
+				var so iface.Store
+				if sharedOpen[other.Idx] == nil {
+					sharedOpen[other.Idx] = &iface.CreateDBOptions{}
+				}
+				so, err = other.DB.Open(octx, db.Addr, sharedOpen[other.Idx])
+				ocancel()
+				if err == nil {
+					other.Track(so)
+					db.Stores[other.Idx] = so
+				}
+			}
+		} else {
+			db, err = e.CreateDB(fmt.Sprintf("c09-%d", i), storeTypes[(i+c.Idx)%3], creator, []*sim.Peer{other}, wl)
+		}
 		if err != nil {
 			return fw.Verdict{Status: fw.Inconclusive, What: "create: " + err.Error()}
 		}
@@ -283,8 +313,93 @@ func c09Run(c fw.Case) fw.Verdict {
 			}
 		}
 	}
+	// ---- two databases of one instance written at the same time: only oracles (1) and (3) apply ----
+	if len(dbs) >= 2 {
+		for round := 0; round < 3; round++ {
+			x, y := dbs[rng.Intn(len(dbs))], dbs[rng.Intn(len(dbs))]
+			if x == y {
+				continue
+			}
+			p := peers[rng.Intn(2)]
+			takeEvents()
+			var bw sync.WaitGroup
+			for _, db := range []*DB{x, y} {
+				bw.Add(1)
+				go func(db *DB) {
+					defer bw.Done()
+					for i := 0; i < 3; i++ {
+						_, _ = ApplyOp(bg, db.Stores[p.Idx], honestOp(db.Type, 50000+round*10+i))
+					}
+				}(db)
+			}
+			bw.Wait()
+			steps = append(steps, fmt.Sprintf("concurrent writes %s,%s on p%d", x.Name, y.Name, p.Idx))
+			v.Count("concurrent_two_database_bursts", 1)
+			if !e.W.Flush() {
+				return fw.Verdict{Status: fw.Inconclusive, What: fmt.Sprintf("rest not reached: %v", e.H.Detail()), Trace: steps}
+			}
+			if vio := checkWire(); vio != nil {
+				return fail(vio)
+			}
+			for _, ev := range takeEvents() {
+				for _, l := range ev.logs {
+					if l != ev.addr {
+						return fail(&Violation{"crosstalk=event-entries", fmt.Sprintf("store event %q for %s carries an entry of log %s", ev.kind, ev.addr, l)})
+					}
+				}
+			}
+		}
+	}
 	cancel()
 	wg.Wait()
+	// ---- restart both instances: every database must come back with its own entries ----
+	want := map[string]idleState{}
+	for _, db := range dbs {
+		for _, p := range peers {
+			want[fmt.Sprintf("%s@%d", db.Addr, p.Idx)] = stateOf(db, p)
+		}
+	}
+	for _, p := range peers {
+		p.Stop()
+	}
+	e.W.Settle()
+	for _, p := range peers {
+		reopen := &iface.CreateDBOptions{} // one value per instance, reused for every Open on it
+		if err := p.Start(); err != nil {
+			return fw.Verdict{Status: fw.Inconclusive, What: "restart: " + err.Error()}
+		}
+		for _, db := range dbs {
+			opts := &iface.CreateDBOptions{}
+			if shared {
+				opts = reopen
+			}
+			octx, ocancel := context.WithTimeout(bg, 20*time.Second)
+			so, err := p.DB.Open(octx, db.Addr, opts)
+			ocancel()
+			if err != nil {
+				return fail(&Violation{"reopen-failed", fmt.Sprintf("database %s cannot be reopened on p%d: %v", db.Name, p.Idx, err)})
+			}
+			p.Track(so)
+			db.Stores[p.Idx] = so
+		}
+		for _, db := range dbs {
+			if err := db.Stores[p.Idx].Load(bg, -1); err != nil {
+				return fail(&Violation{"reload-failed", fmt.Sprintf("database %s on p%d: Load: %v", db.Name, p.Idx, err)})
+			}
+		}
+	}
+	e.W.Settle()
+	e.W.DropAll()
+	for _, db := range dbs {
+		for _, p := range peers {
+			b := want[fmt.Sprintf("%s@%d", db.Addr, p.Idx)]
+			a := stateOf(db, p)
+			v.Count("restart_checks", 1)
+			if !eqStrings(a.order, b.order) || a.view != b.view {
+				return fail(&Violation{"crosstalk=persisted-state", fmt.Sprintf("database %s on p%d held %d entries before the restart and lists %d after it (shared options value: %v)", db.Name, p.Idx, len(b.order), len(a.order), shared)})
+			}
+		}
+	}
 	v.Status = fw.Held
 	v.Sig = fw.HashSig(nd, lists, fmt.Sprint(steps))
 	v.NonTrivial = nd >= 2 && idleWhileReplicating > 0 && v.Counters["wire_messages_checked"] >= 10
